@@ -30,7 +30,7 @@ def render_line(l, hchar, hlist=None):
     if k == "dirhead":
         return sp + ".. dir%d:: arg%d" % (t[1], t[1])
     if k == "option":
-        return sp + ":opt%d: v%d" % (t[2], t[2])
+        return sp + ":%s: v%d" % (optname(t[1], t[2]), t[2])
     if k == "doctest":
         return sp + ">>> test%d" % t[1]
     if k == "expected":
@@ -42,6 +42,11 @@ def render_line(l, hchar, hlist=None):
     raise ValueError(t)
 
 
+def optname(node, j):
+    """every second directive gives all its options the same name: an added option is an element of its own"""
+    return "opt1" if node % 2 == 1 else "opt%d" % j
+
+
 def replay_history(beh, headers):
     """Apply the API calls of one behaviour to a real RSTWriter. Returns None or a mismatch description."""
     from cminx.rstwriter import RSTWriter
@@ -51,6 +56,7 @@ def replay_history(beh, headers):
     hlist = list(headers or RSTWriter.heading_level_chars)
     hchar = hlist[0]
     handles = {}
+    optcount = {}
     drift = []
     root = None
     nnodes = 0
@@ -89,8 +95,9 @@ def replay_history(beh, headers):
             nnodes += 1
             handles[nnodes] = w.section(o["t"]["id"])
         elif op == "option":
-            j = len(w.options) + 1
-            w.option("opt%d" % j, "v%d" % j)
+            j = optcount.get(o["h"], 0) + 1
+            optcount[o["h"]] = j
+            w.option(optname(o["h"], j), "v%d" % j)
         elif op == "clear":
             w.clear()
         elif op == "to_text":
